@@ -38,9 +38,9 @@ Q_Rects == RectSet(Three)
 \* thorough tier
 T_Unit == Lin5 \cup Gen
 T_C == Grid2
-T_P1 == Grid3 \cup Gen
+T_P1 == Grid2 \cup Gen
 T_P0 == Lin3T2 \cup Gen
 T_T == Grid3 \cup Gen
 T_N == Lin5 \cup Gen
-T_R == Lin5 \cup Gen
+T_R == MatSet(Five, {2}) \cup Gen
 ====
